@@ -246,7 +246,7 @@ def run_tlc(
     specdir = specdir or SPEC
     cfg = cfg or module + ".cfg"
     meta = tempfile.mkdtemp(prefix="verif-tlc-")
-    jopts = [f"-Xmx{heap}", "-XX:+UseParallelGC"]
+    jopts = [f"-Xmx{heap}", "-Xss64m", "-XX:+UseParallelGC"]
     if dfs:
         jopts.append("-Dtlc2.tool.queue.IStateQueue=StateDeque")
     cmd = ["java", *jopts, "-cp", TLC_CP, "tlc2.TLC", "-metadir", meta, "-noGenerateSpecTE",
